@@ -313,7 +313,7 @@ func (R *Renderer) fieldOf(base ssa.Value, field int, at ssa.Instruction) string
 		}
 		return "var(" + a.Comment + ")." + name
 	}
-	return R.V(base) + "." + name
+	return strings.TrimPrefix(R.V(base), "&") + "." + name
 }
 
 func (R *Renderer) load(x *ssa.UnOp) string {
